@@ -50,11 +50,18 @@ fn to_c(a: &[f64]) -> Vec<(f64, f64)> {
 
 /// a, b integer-valued (so that the true product is exact in i128)
 fn check_product(a: &[i64], b: &[i64], what: &str, rep: &mut Report) {
+    check_product_scaled(a, b, 0, what, rep)
+}
+
+/// Inputs are the dyadic reals a_i / 2^sh, b_i / 2^sh (sh = 0: integers), so that the exact
+/// product is still computable in i128.
+fn check_product_scaled(a: &[i64], b: &[i64], sh: u32, what: &str, rep: &mut Report) {
     rep.evaluations += 1;
     let n = a.len();
-    let af: Vec<f64> = a.iter().map(|&x| x as f64).collect();
-    let bf: Vec<f64> = b.iter().map(|&x| x as f64).collect();
-    let replay = || json!({"kind": "product", "a": a, "b": b});
+    let sc = (1u64 << sh) as f64;
+    let af: Vec<f64> = a.iter().map(|&x| x as f64 / sc).collect();
+    let bf: Vec<f64> = b.iter().map(|&x| x as f64 / sc).collect();
+    let replay = || json!({"kind": "product", "a": a, "b": b, "shift": sh});
     let (ac, bc) = (to_c(&af), to_c(&bf));
     let r = monitored(|| {
         let fa = vh::cfft(&ac);
@@ -74,7 +81,7 @@ fn check_product(a: &[i64], b: &[i64], what: &str, rep: &mut Report) {
                 rep.violation("fft:roundtrip", format!("ifft(fft(a)) differs from a by {:e} > 2^-30 ||a|| for n={} ({})", e_rt, n, what), replay());
             }
             let exact = spec::negamul_z(a, b);
-            let e_p = prod.iter().zip(exact.iter()).map(|((re, im), x)| (re - *x as f64).abs().max(im.abs())).fold(0.0, f64::max);
+            let e_p = prod.iter().zip(exact.iter()).map(|((re, im), x)| (re - (*x as f64) / (sc * sc)).abs().max(im.abs())).fold(0.0, f64::max);
             if na > 0.0 && nb > 0.0 {
                 rep.stat_max("worst_product_rel", e_p / (na * nb));
                 if !(e_p <= TOL * na * nb) {
@@ -144,6 +151,13 @@ pub fn accuracy(ctx: &Ctx, rep: &mut Report) {
             let a: Vec<i64> = (0..n).map(|_| rng.gen_range(-ra..=ra)).collect();
             let b: Vec<i64> = (0..n).map(|_| rng.gen_range(-rbn..=rbn)).collect();
             check_product(&a, &b, "random", rep);
+            if it % 4 == 0 {
+                // non-integer reals: 20 fractional bits, same magnitude range
+                let a: Vec<i64> = (0..n).map(|_| rng.gen_range(-(ra << 20)..=(ra << 20))).collect();
+                let b: Vec<i64> = (0..n).map(|_| rng.gen_range(-(rbn << 20)..=(rbn << 20))).collect();
+                check_product_scaled(&a, &b, 20, "random reals", rep);
+                rep.count("real_valued_pairs", 1);
+            }
         }
         rep.count("sizes", 1);
         rep.nontrivial(format!("n|{}", n).as_bytes());
@@ -153,13 +167,53 @@ pub fn accuracy(ctx: &Ctx, rep: &mut Report) {
     rep.sample(json!({"sizes": "2..1024", "magnitudes": "|a_i| <= 2^14, |b_i| <= 2^10", "worst_product_rel": rep.stats.get("worst_product_rel"), "tolerance": TOL}));
 }
 
+/// The same low-degree polynomial embedded in every length, walked through in one thread.
+pub fn cross_size(ctx: &Ctx, rep: &mut Report) {
+    let mut rng = rng_for(ctx.seed, "c13-cross");
+    let rounds = ctx.sz(6, 200);
+    let sizes: Vec<usize> = (1..=10).map(|k| 1usize << k).collect();
+    for round in 0..rounds {
+        let head: Vec<i64> = (0..=rng.gen_range(0..4usize)).map(|_| rng.gen_range(-16384..=16384)).collect();
+        let head2: Vec<i64> = (0..=rng.gen_range(0..3usize)).map(|_| rng.gen_range(-1024..=1024)).collect();
+        let mut order = sizes.clone();
+        if round % 3 == 1 {
+            order.reverse();
+        } else if round % 3 == 2 {
+            for k in (1..order.len()).rev() {
+                let j = rng.gen_range(0..=k);
+                order.swap(k, j);
+            }
+        }
+        for &n in &order {
+            let embed = |h: &Vec<i64>| {
+                let mut v = vec![0i64; n];
+                for (i, x) in h.iter().enumerate() {
+                    if i < n {
+                        v[i] = *x;
+                    }
+                }
+                v
+            };
+            let mut one = vec![0i64; n];
+            one[0] = 1;
+            check_product(&embed(&head), &one, "embedded head x 1", rep);
+            check_product(&embed(&head), &embed(&head2), "embedded heads", rep);
+            check_product(&vec![0i64; n], &embed(&head), "zero x head", rep);
+            rep.nontrivial(format!("cross|{}|{}", round, n).as_bytes());
+        }
+        rep.count("cross_size_walks", 1);
+    }
+    rep.sample(json!({"walks": rounds, "sizes": sizes, "inputs": "the same low-degree coefficients embedded in every length, in one thread"}));
+    rep.require("cross_size_walks", 3);
+}
+
 pub fn replay(r: &Value) -> bool {
     let mut rep = Report::new();
     match r["kind"].as_str().unwrap_or("") {
         "product" => {
             let a: Vec<i64> = r["a"].as_array().unwrap().iter().map(|x| x.as_i64().unwrap()).collect();
             let b: Vec<i64> = r["b"].as_array().unwrap().iter().map(|x| x.as_i64().unwrap()).collect();
-            check_product(&a, &b, "replay", &mut rep);
+            check_product_scaled(&a, &b, r["shift"].as_u64().unwrap_or(0) as u32, "replay", &mut rep);
         }
         _ => table(&Ctx { tier: "quick".into(), seed: 1, profile: "release".into(), args: vec![] }, &mut rep),
     }
